@@ -176,10 +176,59 @@ theorem sub_mag_is_distance {a b : Geonum ℝ} (ha : a.angle.Inv) (hb : b.angle.
   rw [e, ← hnorm]
   exact le_trans (abs_norm_sub_norm_le _ _) h
 
+/-- (E) **circle inversion, exact structure**: away from the centre the result is `c + io` where the inverted offset `io` lies on
+    the same ray as the offset `p − c` (same angle field) and `|io|·|p − c| = r²` exactly -/
+theorem invertCircle_structure_real (p c : Geonum ℝ) (r : ℝ) (hoff : (p.sub c).mag ≠ 0) :
+    ∃ io : Geonum ℝ, p.invertCircle c r = some (c.add io) ∧ io.angle = (p.sub c).angle ∧ io.mag * (p.sub c).mag = r ^ 2 := by
+  have hne : feq (p.sub c).mag (zero : ℝ) = false := by
+    rw [r_eq, lit_real.1]; simpa using hoff
+  refine ⟨⟨r * r / (p.sub c).mag, (p.sub c).angle⟩, (invertCircle_spec p c r).2 hne, rfl, ?_⟩
+  show r * r / (p.sub c).mag * (p.sub c).mag = r ^ 2
+  field_simp
+
+/-- (E) as Cartesian points: `p' ≈ c + io` and `p − c ≈ offset`, each within the addition tolerance; so `p'` is on the ray from `c`
+    through `p` at distance `r²/|p − c|` (up to those tolerances) -/
+theorem invertCircle_cartesian_real {p c : Geonum ℝ} {r : ℝ} (hp : p.angle.Inv) (hc : c.angle.Inv) (h0p : 0 ≤ p.mag) (h0c : 0 ≤ c.mag)
+    (hoffpos : 0 < (p.sub c).mag) (hoffinv : (p.sub c).angle.Inv)
+    (hcb : p.angle.blade + (c.angle.blade + 2) ≤ 2 ^ 40) (hcb2 : c.angle.blade + (p.sub c).angle.blade ≤ 2 ^ 40) :
+    ∃ p' io : Geonum ℝ, p.invertCircle c r = some p' ∧ io.angle = (p.sub c).angle ∧ io.mag * (p.sub c).mag = r ^ 2 ∧
+      ‖cart p' - (cart c + cart io)‖ ≤ 1 / 10 ^ 10 * (1 + c.mag + io.mag) ∧
+      ‖cart (p.sub c) - (cart p - cart c)‖ ≤ 1 / 10 ^ 10 * (1 + p.mag + c.mag) := by
+  obtain ⟨io, hinv, hang, hmag⟩ := invertCircle_structure_real p c r (ne_of_gt hoffpos)
+  have hio0 : 0 ≤ io.mag := by
+    have : io.mag = r ^ 2 / (p.sub c).mag := by field_simp; linarith
+    rw [this]; positivity
+  have hioinv : io.angle.Inv := by rw [hang]; exact hoffinv
+  refine ⟨c.add io, io, hinv, hang, hmag, add_refines hc hioinv h0c hio0 (by rw [hang]; exact hcb2), ?_⟩
+  -- the offset itself
+  have hn := negate_spec hc
+  have hninv : c.negate.angle.Inv := inv_of_spec hc hn.2
+  have h := add_refines hp hninv h0p (show 0 ≤ c.negate.mag from h0c) (by
+    show p.angle.blade + c.angle.negate.blade ≤ 2 ^ 40
+    rw [hn.1]; exact hcb)
+  have hcn : cart c.negate = -cart c := by
+    show polar c.mag (T c.angle.negate) = -polar c.mag (T c.angle)
+    rw [negate_total_real hc, polar_add_pi]
+  rw [hcn] at h
+  have e : cart p - cart c = cart p + -cart c := by ring
+  rw [e]; exact h
+
+/-- (E) points on the circle are fixed: if `|p − c| = r` the inverted offset IS the offset, so `p' = c + (p − c)` -/
+theorem invertCircle_fixes_circle_real (p c : Geonum ℝ) (r : ℝ) (hr : (p.sub c).mag = r) (hr0 : r ≠ 0) :
+    p.invertCircle c r = some (c.add (p.sub c)) := by
+  have hne : feq (p.sub c).mag (zero : ℝ) = false := by
+    rw [r_eq, lit_real.1, hr]; simpa using hr0
+  rw [(invertCircle_spec p c r).2 hne]
+  have : (⟨fdiv (fmul r r) (p.sub c).mag, (p.sub c).angle⟩ : Geonum ℝ) = p.sub c := by
+    have hm : fdiv (fmul r r) (p.sub c).mag = (p.sub c).mag := by
+      rw [r_div, r_mul, hr]; field_simp
+    rw [hm]
+  rw [this]
+
 end E
 
-/-! PARTIAL (not yet proved): the inversion laws (same ray,
-    |p'−c||p−c| = r², involution).  Explored by `oracle.C13.*`. -/
+/-! PARTIAL (not yet proved): the involution `invert ∘ invert = id` as a composed Cartesian statement (it follows from
+    `invertCircle_cartesian_real` applied twice; tolerances scale with the conditioning r²/|p−c|²).  Explored by `oracle.C13.invert`. -/
 
 example {F : Type} [FloatSpec F] : (⟨zero, 0⟩ : Angle F).Inv := inv_zero 0
 
